@@ -17,6 +17,11 @@ SHAPES = {
     'Diamond': ('PY_Diamond', 'CO_Diamond', 4, 3,
                 {'0': [], '1': [0], '2': [1], '3': [1], '4': [2, 3]},
                 [4, 4, 2]),
+    # like Two, but class 1 is a real built-in type (complex): its
+    # specification cannot be stored on the class and lives in
+    # BuiltinImplementationSpecifications
+    'TwoB': ('PY_Two', 'CO_Two', 2, 2,
+             {'0': [], '1': [0], '2': [1]}, [2, 2]),
     'Tri': ('PY_Tri', 'CO_Tri', 3, 3,
             {'0': [], '1': [0], '2': [1], '3': [2, 1]}, [3, 3, 2]),
     'Mixin': ('PY_Mixin', 'CO_Mixin', 4, 3,
@@ -30,6 +35,7 @@ INVS = ['TypeOK', 'ProvidedWithinInterval', 'NoLeak', 'SuperIsRestOfMro',
 PLAN = {
     ('C01', 'quick'): [('Two', 5, 'Args1', False, True, 'AllOps', 'mc', 0),
                        ('Chain', 4, 'Args1', False, False, 'AllOps', 'mc', 0),
+                       ('TwoB', 4, 'Args1', False, False, 'AllOps', 'mc', 0),
                        ('Tri', 4, 'Args1', False, False, 'ClassOps', 'mc', 0),
                        ('Tri', 12, 'Args12', False, True, 'AllOps', 'sim',
                         300),
@@ -69,11 +75,14 @@ PLAN = {
                           ('Mixin', 20, 'Args12', True, False, 'AllOps',
                            'sim', 5000)],
     ('C13', 'quick'): [('Two', 4, 'Args1', False, True, 'AllOps', 'mc', 0),
+                       ('TwoB', 4, 'Args1', False, False, 'AllOps', 'mc', 0),
                        ('Chain', 10, 'Args12', False, True, 'AllOps', 'sim',
                         200),
                        ('Mixin', 10, 'Args12', False, True, 'AllOps', 'sim',
                         150)],
     ('C13', 'thorough'): [('Two', 5, 'Args12', False, True, 'AllOps', 'mc', 0),
+                          ('TwoB', 5, 'Args12', False, False, 'AllOps', 'mc',
+                           0),
                           ('Chain', 4, 'Args1', False, True, 'AllOps', 'mc',
                            0),
                           ('Mixin', 15, 'Args12', False, True, 'AllOps',
@@ -167,6 +176,8 @@ def run(pid, tier, v, build, plan=None):
                         'props': [pid] if pid != 'C10' else
                         ['C01', 'C13', 'C19'], 'ibases': IB3, 'pybases': pybd,
                         'classof': cofd, 'cases': sh, 'shard': si,
+                        'builtin': {'1': 'complex'} if shape == 'TwoB'
+                        else {},
                         'seed': seed() * 100 + si}))
             for (implv, job), r in zip(jobs, run_children(
                     build, 'replay_declarations.py', jobs)):
